@@ -710,7 +710,7 @@ class Builder:
     documents as equivalent to one call with the conjunction.
     """
 
-    def __init__(self, root, tables=None, raw=False, split=False):
+    def __init__(self, root, tables=None, raw=False, split=False, rename=None):
         from forml.io import dsl
         from forml.io.dsl import function
 
@@ -720,6 +720,7 @@ class Builder:
         self.tables = tables or catalog()
         self.raw = raw
         self.split = split
+        self.rename = rename or {}  # AST reference name -> name given to the real reference (see shared_names)
         self.refs = references(self.root)
         self._origins = {}
         self.arith = {'+': function.Addition, '-': function.Subtraction, '*': function.Multiplication,
@@ -740,7 +741,8 @@ class Builder:
             key = signature(ast)
             if key not in self._origins:
                 inner = self.source(ast[1])
-                self._origins[key] = self.dsl.Reference(inner, ast[2]) if self.raw else inner.reference(ast[2])
+                name = self.rename.get(ast[2], ast[2])
+                self._origins[key] = self.dsl.Reference(inner, name) if self.raw else inner.reference(name)
             return self._origins[key]
         if tag == 'join':
             left, right = self.source(ast[1]), self.source(ast[2])
@@ -901,10 +903,39 @@ class Builder:
         raise DslgenError(f'not a feature: {node!r}')
 
 
-def build(ast, tables=None, split=False):
+def shared_names(ast):
+    """{name: other name} making two *different* references of the statement share one name - legal wherever the two are
+    never visible in the same FROM clause (different set operands, a nested statement vs its surroundings): the AST
+    keeps unique names (oracles stay unambiguous), only the real objects get the shared name.  {} if there is no pair."""
+    ast = norm(ast)
+
+    def visible(source):
+        tag = source[0]
+        if tag == 'reference':
+            return {source[2]}
+        if tag == 'join':
+            return visible(source[1]) | visible(source[2])
+        return set()
+
+    scopes, names = [], []
+    for path, node in walk(ast):
+        if node[0] == 'query':
+            scopes.append(visible(node[1]))
+        elif node[0] == 'join' and path == ():
+            scopes.append(visible(node))
+        elif node[0] == 'reference' and node[2] not in names:
+            names.append(node[2])
+    for i, first in enumerate(names):
+        for second in names[i + 1:]:
+            if not any(first in scope and second in scope for scope in scopes):
+                return {second: first}
+    return {}
+
+
+def build(ast, tables=None, split=False, rename=None):
     """Real dsl object of a source or feature AST through the fluent API (python operators, ``.select`` ...)."""
     ast = norm(ast)
-    builder = Builder(ast, tables, raw=False, split=split)
+    builder = Builder(ast, tables, raw=False, split=split, rename=rename)
     return builder.source(ast) if is_source(ast) else builder.feature(ast)
 
 
